@@ -228,7 +228,7 @@ theorem bottleneck_vs_empty [IsEmpty N] (S : M → Pt) (T : N → Pt) (d : ℝ) 
   isBottleneck_empty_right _ _ _ d
 
 /-- **triangle inequality** -/
-theorem bottleneck_triangle' (R : L → Pt) (S : M → Pt) (T : N → Pt) {d1 d2 d : ℝ}
+theorem bottleneck_triangle_ineq (R : L → Pt) (S : M → Pt) (T : N → Pt) {d1 d2 d : ℝ}
     (h1 : IsBn R S d1) (h2 : IsBn S T d2) (h : IsBn R T d) : d ≤ d1 + d2 :=
   bottleneck_triangle (cLM := cB R S) (cMN := cB S T) (cLN := cB R T) (uL := uB R) (uM := uB S)
     (uN := uB T) (fun i j k => linf_triangle _ _ _) (fun i j => diagInf_lipschitz _ _)
@@ -295,7 +295,7 @@ theorem wasserstein_vs_empty [IsEmpty N] (S : M → Pt) (T : N → Pt) :
   isMinSum_empty_right _ _ _
 
 /-- **triangle inequality** (the middle diagram proper) -/
-theorem wasserstein_triangle' {L : Type} [Fintype L] [DecidableEq L] (R : L → Pt) (S : M → Pt) (T : N → Pt)
+theorem wasserstein_triangle_ineq {L : Type} [Fintype L] [DecidableEq L] (R : L → Pt) (S : M → Pt) (T : N → Pt)
     (hS : Proper S) {w1 w2 w : ℝ} (h1 : IsWs R S w1) (h2 : IsWs S T w2) (h : IsWs R T w) : w ≤ w1 + w2 :=
   minSum_triangle (cLM := cW R S) (cMN := cW S T) (cLN := cW R T) (uL := uW R) (uM := uW S) (uN := uW T)
     (fun i j k => euclid_triangle _ _ _) (fun i j => diagL2_lipschitz _ _)
